@@ -269,6 +269,12 @@ class ShmAllocator:
         """Attach to an existing header in *buf*."""
         self._buf = buf
         self._total_size = total_size
+        if len(buf) < HEADER_SIZE:
+            # Some other program's segment, smaller than our header (the fixed
+            # fields plus the allocation table).  ``unpack_from`` on it raises
+            # ``struct.error``, which no caller treats as "not a vgi-rpc
+            # segment"; say so with the ValueError they all expect.
+            raise ValueError(f"Segment of {len(buf)} bytes is smaller than the {HEADER_SIZE}-byte SHM header")
         magic, version, data_size, _, _ = _HEADER_STRUCT.unpack_from(buf, 0)
         if magic != _MAGIC:
             raise ValueError(f"Bad SHM magic: {magic!r}")
